@@ -308,6 +308,11 @@ PROPS["C09"]["assumptions"] = PROPS["C09"]["assumptions"] + ["lab half: for ever
 
 PROPS["C19"]["stages"] = [rt_stage, labchecks.raw_stage]
 PROPS["C06"]["stages"] = [rt_stage, labchecks.bodies_stage]
+PROPS["C06"]["assumptions"] = PROPS["C06"]["assumptions"] + ["lab half: raw requests with hostile bodies (valid in several styles, padded to limit-1..limit+2, trailing data, truncated, malformed, single wire faults), "
+    "Content-Type classes, random chunkings and stream errors against the generated endpoints of random services (optional and required bodies, endpoints with server-limit-request-size tags), blocking and async"]
+PROPS["C18"]["stages"] = [rt_stage, labchecks.responses_stage]
+PROPS["C18"]["assumptions"] = PROPS["C18"]["assumptions"] + ["lab half: generated clients of random services (all return classes) are handed canned responses (200/204, Content-Type classes, valid / faulty / malformed bodies, "
+    "random chunkings, stream errors) by the transport; blocking and async clients must also agree with each other"]
 PROPS["C19"]["assumptions"] = PROPS["C19"]["assumptions"] + ["lab half: raw requests (valid / with 1-2 corrupted path, query, header or auth arguments) against the generated endpoints of random services, blocking and async"]
 
 PROPS["C07"]["stages"] = [rt_stage, labchecks.services_stage]
